@@ -230,13 +230,11 @@ func fnPV() int { return 3 }
 func fnPF() int { return 4 }
 func fnIn() int { return 5 }
 
-// ownPath: the engine model does not speak about this schema's nil path — discriminated union has a private one
-// (lazy's follows the engine's order since bc2d4fc and is modelled), and Record's pointer variants (after Optional/Nilable/Nullish) fail every Parse in a type-local conversion
-// (known finding record:pointer-variant-conversion). Such cases are judged by the specification only.
+// ownPath: the engine model does not speak about this schema's nil path — Record's pointer variants (after
+// Optional/Nilable/Nullish) fail every Parse in a type-local conversion (known finding record:pointer-variant-conversion).
+// Such cases are judged by the specification only. (Discriminated union and lazy had private nil paths that deviated;
+// since a69d756 / bc2d4fc they follow the engine's order and are compared with the engine model like every other type.)
 func ownPath(e *entry, h []string) bool {
-	if e.name == "du" {
-		return true
-	}
 	if e.name == "record" {
 		for _, op := range h {
 			if op == "Optional" || op == "Nilable" || op == "Nullish" {
